@@ -79,7 +79,13 @@ func cmdCheck(args []string) {
 		os.Exit(2)
 	}
 	known := loadKnown(filepath.Join(*verif, "known-findings.json"))
-	frs, ors := verifyAll(L, func(c *Contract) bool { return hasProp(c, *prop) }, work, timeout, all, false, "")
+	frs, ors0 := verifyAll(L, func(c *Contract) bool { return hasProp(c, *prop) || clauseHasProp(c, *prop) }, work, timeout, all, false, "")
+	var ors []*OblResult
+	for _, or := range ors0 {
+		if oblInProp(or.O, or.C, *prop) {
+			ors = append(ors, or)
+		}
+	}
 
 	type sample struct {
 		Obligation string  `json:"obligation"`
@@ -308,4 +314,39 @@ func writeReplay(dir, prop string, or *OblResult, note string) string {
 		suffix = " no-failing-input-found"
 	}
 	return fmt.Sprintf("VIOLATION property=%s replay=%s obligation=%s%s", prop, p, or.O.Name, suffix)
+}
+
+
+func clauseHasProp(c *Contract, id string) bool {
+	for _, cl := range append(append([]*Clause{}, c.Requires...), c.Ensures...) {
+		for _, p := range cl.Props {
+			if p == id {
+				return true
+			}
+		}
+	}
+	return false
+}
+
+// oblInProp decides whether an obligation counts for property id. Clause-tagged obligations count
+// for their tags only; safety obligations count for C15 when the function lists C15 (otherwise for
+// all of the function's properties); everything else counts for every property of the function.
+func oblInProp(o *Obligation, c *Contract, id string) bool {
+	if o.Clause != nil && len(o.Clause.Props) > 0 && (o.Kind == "post" || o.Kind == "lemma") {
+		for _, p := range o.Clause.Props {
+			if p == id {
+				return true
+			}
+		}
+		return false
+	}
+	if !hasProp(c, id) {
+		return o.Kind == "cover"
+	}
+	if strings.HasPrefix(o.Kind, "safe-") || o.Kind == "no-panic" {
+		if hasProp(c, "C15") {
+			return id == "C15"
+		}
+	}
+	return true
 }
